@@ -16,6 +16,8 @@ REBASED = {
     "C18-for-call-cursor": "the extra cursor advance re-introduced on the call-iterable path after the for-block cursor fix",
     "C19-ranger-wrap": "increment-then-test in ranger.Next re-expressed on the done-flag iterator",
     "C20-truncate-bytelen": "byte-length early return re-applied to the rewritten Truncate",
+    "C02-r3-bstring-backslash": "the same merge of readString/readBString re-applied after the comment-tag fix touched the neighbouring lines",
+    "C18-r4a-bare-hash-swallows-line": "the same extra readChar re-applied after the comment-tag fix added a guard at the top of the # case",
 }
 # checks of other properties that are known to catch a seed as well (or instead)
 EXTRA = {"C20-r2-falsy-arg-zero": ["C12"], "C08-r2-nil-element-outer": ["C10"], "C16-nil-arg-shadow": ["C10"], "C19-r3-iterator-continue": ["C08"], "C16-r3-value-nil-fallthrough": ["C10"], "C12-r3-errors-as-swallow": ["C05"]}
